@@ -139,7 +139,7 @@ def build_model():
     open(stamp, 'w').write(key)
     return True, out[-500:]
 
-EXTRA_MODEL_TARGETS = []
+EXTRA_MODEL_TARGETS = ['model/Conc.vo']
 
 def build_harness(profile='chk'):
     env = dict(ENV, RUSTFLAGS='--cfg weechess_verif')
